@@ -359,6 +359,14 @@ class Executor(ExprMixin, StmtMixin, CallMixin, ContractMixin):
             exc = st.exc
             cands = [r for r in c.raises
                      if self.classes.is_subclass(exc.cls, self.classes.canon(r.cls.rstrip('+')))]
+            if cands and not exc.opaque_cls:
+                # an exception the body raises itself is judged by the most specific clauses that
+                # cover its class (a catch-all `Exception+` clause for opaque callees must not
+                # excuse a ConfigurationError raised under the wrong condition)
+                def cc(r):
+                    return self.classes.canon(r.cls.rstrip('+'))
+                cands = [r for r in cands
+                         if not any(cc(o) != cc(r) and self.classes.is_subclass(cc(o), cc(r)) for o in cands)]
             if not cands:
                 self.oblige(st, False, 'exc-escape', exc.cls.split('.')[-1].replace('builtin:', ''), node=node,
                             carries=getattr(c, 'escape_carries', None),
